@@ -245,7 +245,9 @@ func (c *c08Case) scenario(withPrefix bool) *Scenario {
 		}
 		b.invoke("S1", 1)
 	case "crash":
-		stage(sx.Exts, Script{Steps: []Step{{Op: "rt.next"}, {Op: "exit", Code: 4}}})
+		// (the pause lets the INVOKE event reach the extensions before the crash is handled: whether an extension sees INVOKE
+		// and then SHUTDOWN, or SHUTDOWN at once, is a race inside one run and says nothing about the reset)
+		stage(sx.Exts, Script{Steps: []Step{{Op: "rt.next"}, {Op: "sleep", Ms: 40}, {Op: "exit", Code: 4}}})
 		b.invoke("S0", 0)
 		stage(sx.Exts, loop)
 		b.invoke("S1", 1)
